@@ -92,6 +92,9 @@ def run(ctx):
     if not binp:
         return
     quick = ctx.tier == "quick"
+    tie_ok, tie_detail = ctx.translator_tie(
+        "xlate_gconf", ["-src", os.path.join(ctx.copy_repo(), "gconfig")], "GConfGen", "Tie_C03")
+    ctx.log("translator tie:", "OK" if tie_ok else "BROKEN", "-", tie_detail.splitlines()[0])
     runs = [("corpus", ["-mode", "corpus"]),
             ("random", ["-mode", "random", "-n", 500 if quick else 12000]),
             ("ood", ["-mode", "ood", "-n", 80 if quick else 1500])]
@@ -133,6 +136,19 @@ def run(ctx):
                            2: "observation differs from the Coq model of reduceAny/extract"}[code],
                "replay_cmd": "./check C03 --replay <this file>"}
         ctx.report(rep, features(j), failing_input=(code == 1))
+    ctx.cov.setdefault("translator_tie", {})
+    if not tie_ok:
+        ctx.cov["translator_tie"] = {"status": "BROKEN", "detail": tie_detail[-600:]}
+    if not tie_ok and not any(c == 1 for _, c in bad):
+        # the source of keySet/parsesAll/switchDimension/reduceAny/extract is no longer what the model
+        # was tied to; the correspondence run above is the search for a concrete failing input
+        gen = os.path.join(ctx.gen, "GConfGen.v")
+        ctx.report({"unchecked": "translator tie Tie_C03 (regenerated reduceAny/switchDimension/parsesAll/keySet/"
+                                 "extract = GConfModel)",
+                    "detail": tie_detail[-2500:],
+                    "generated": open(gen).read()[-3000:] if os.path.isfile(gen) else None,
+                    "failing_inputs_found_by_the_correspondence_run": len([1 for _, c in bad if c == 1])},
+                   {"kind": "translator_tie"}, failing_input=False)
     indom = [j for j in jsons if j["kind"] != "ood"]
     ctx.cov.update({
         "evaluations": len(jsons),
